@@ -194,7 +194,7 @@ def build_harness(name, variant, sources=None, extra_flags=(), link_lib=True, co
             return exe
         t0 = time.time()
         os.makedirs(d, exist_ok=True)
-        cmd = ([v["cc"]] + v["flags"] + ["-DHWLOC_VERIF", "-D_GNU_SOURCE", "-Wall", "-Wno-unused-function", "-Wno-misleading-indentation",
+        cmd = ([v["cc"]] + v["flags"] + ["-DHWLOC_VERIF", "-D_GNU_SOURCE", "-Wall", "-Wno-unused-function", "-Wno-misleading-indentation", "-Wno-format-truncation", "-Wno-comment",
                "-I" + os.path.join(VERIF, "harness/common")] + includes() + list(extra_flags) + srcs)
         if lib:
             cmd += [lib]
@@ -266,6 +266,7 @@ def sanitizer_env(outdir):
               "HWLOC_LIBXML", "HWLOC_LIBXML_IMPORT", "HWLOC_LIBXML_EXPORT"):
         env.pop(k, None)
     env["VERIF_REPO_ROOT"] = REPO
+    env["VERIF_ROOT"] = VERIF
     env["MSAN_OPTIONS"] = "exit_code=86:halt_on_error=1:allocator_may_return_null=1"
     return env
 
